@@ -141,7 +141,8 @@ func cmdReplayCosmetic(args []string) error {
 				return rejectedErr("pool rule %q rejected: %v", r.text(v), err)
 			}
 			if cr.Whitelist != r.Exc || cr.Content != selectorText[r.Content] || cr.IsGeneric() != (len(r.PermDom) == 0) {
-				return fmt.Errorf("renderer self-check failed on %q", r.text(v))
+				return rejectedErr("cosmetic rule %q is parsed differently from what the specification says (exception %v, content %q, generic %v)",
+					r.text(v), cr.Whitelist, cr.Content, cr.IsGeneric())
 			}
 		}
 	}
